@@ -81,7 +81,9 @@ extern "C" __attribute__((noinline)) void h_realsp() {
   t.acceptBlock(altHash(2), p2); t.acceptBlock(altHash(3), none); t.acceptBlock(altHash(4), none);
   uint32_t where = verif_choice(5, 6);
   PopData b5, b6;
-  (where == 5 ? b5 : b6).vtbs.push_back(makeVTB(w, 4, 4, 2, 2, 1));   // endorses Y's keystone block 4, contained in 4
+  bool flip = verif_cbool();                                     // the VTB (contained in Y's block 4) endorses Y's keystone block 4 (Y wins POP fork resolution) or the common
+                                                                 // non-keystone block 2 (nothing changes: after validation the containing block is unapplied again while holding the VTB)
+  (where == 5 ? b5 : b6).vtbs.push_back(makeVTB(w, (uint8_t)(flip ? 4 : 2), 4, 2, 2, 1));
   t.acceptBlock(altHash(5), b5); t.acceptBlock(altHash(6), b6);
   ValidationState s0;
   verif_check(t.setState(altHash(4), s0), 1);
@@ -92,10 +94,13 @@ extern "C" __attribute__((noinline)) void h_realsp() {
   uint8_t nowTip = t.vbk().getBestChain().tip()->getHash().data()[23];
   verif_check(nowTip == xTip || nowTip == yTip, 7);                            // the VBK best chain always ends in a leaf of the winning fork, never in a mid-fork block
   if (nowTip == yTip) { verif_cover(1); if (longY) verif_cover(3); }           // the VTB really flipped VBK fork resolution to Y
+  if (!flip) { verif_check(nowTip == xTip, 8); verif_check(t.vbk().getBlockIndex(w.vbkById[4].getHash())->getPayloadIds<VTB>().size() == 1, 9); verif_cover(4); }   // held by an unapplied block
+  verif_check(vbkIndexExact(t), 10);
   ValidationState s2;
   verif_check(t.setState(altHash(4), s2), 4);
   verif_check(t.vbk().getBestChain().tip()->getHash().data()[23] == xTip, 5);  // back on A: the SP best chain depends only on the active chain
   verif_check(digest() == d0, 6);
+  verif_check(vbkIndexExact(t), 11);                                           // the VTB left the unapplied block and the VBK payload index with the chain that carried it
   verif_cover(2);
 }
 #else
